@@ -3,15 +3,15 @@ NEXT GenNext
 CONSTANTS
   Unit = 8
   TickMs = 125
-  Family = "fixed"
-  Bursts = {2}
-  Rates <- RatesFin
-  SetRates <- NoRates
-  Ns = {1, 2}
+  Family = "inf"
+  Bursts = {0, 2}
+  Rates <- RatesInf
+  SetRates <- RatesInf
+  Ns = {1, 3}
   Dts <- GDtsQuick
-  MaxEvents = 5
+  MaxEvents = 4
   MaxRes = 2
-  Kinds <- KAll
+  Kinds <- KNoDelay
   Deviation = "none"
 INVARIANT Emit
 CHECK_DEADLOCK FALSE
